@@ -81,8 +81,17 @@ pub fn run_timeout_s() -> u64 {
 /// wall-clock budget takes the calling process down the same way, which the coordinator reports
 /// as a `process_aborted` violation attributed to the announced seed.
 pub fn isolated<T: Send + serde::Serialize + serde::de::DeserializeOwned>(seed: u64, f: impl FnOnce() -> T + Send) -> T {
+    match isolated_or_signal(seed, 0, f) {
+        Ok(v) => v,
+        Err(_) => unreachable!("signal 0"),
+    }
+}
+
+/// As `isolated`, but a child killed by `tolerated` (a signal number, 0 = none) is reported to the
+/// caller as `Err(signal)` instead of taking this process down.
+pub fn isolated_or_signal<T: Send + serde::Serialize + serde::de::DeserializeOwned>(seed: u64, tolerated: i32, f: impl FnOnce() -> T + Send) -> Result<T, i32> {
     if std::env::var("VERIF_NO_FORK").is_ok() {
-        return isolated_thread(seed, f);
+        return Ok(isolated_thread(seed, f));
     }
     unsafe {
         let mut fds = [0i32; 2];
@@ -147,6 +156,9 @@ pub fn isolated<T: Send + serde::Serialize + serde::de::DeserializeOwned>(seed: 
         }
         if libc::WIFSIGNALED(status) {
             let sig = libc::WTERMSIG(status);
+            if tolerated != 0 && sig == tolerated {
+                return Err(sig);
+            }
             eprintln!("simulation process of seed {seed} was killed by signal {sig}");
             // Die the same way, so that whoever runs this process sees the signal.
             libc::signal(sig, libc::SIG_DFL);
@@ -157,7 +169,7 @@ pub fn isolated<T: Send + serde::Serialize + serde::de::DeserializeOwned>(seed: 
             eprintln!("simulation process of seed {seed} exited with status {}", libc::WEXITSTATUS(status));
             std::process::exit(libc::WEXITSTATUS(status));
         }
-        serde_json::from_slice(&bytes).expect("result of the simulation process")
+        Ok(serde_json::from_slice(&bytes).expect("result of the simulation process"))
     }
 }
 
